@@ -1136,6 +1136,17 @@ def _thread_sentinels(tree: ast.Module) -> None:
             static_names.update(a_.asname or a_.name for a_ in st_.names)
     rebound = {n_.id for n_ in ast.walk(tree) if isinstance(n_, ast.Name) and isinstance(n_.ctx, (ast.Store, ast.Del))}
     static_names -= rebound  # a name that is assigned anywhere in the module is not a fixed function / class name
+    # ... a module-level record of such names, bound once (`_GENERAL = _Syntax(sign_general, extract_general, verify_general)`), is as fixed as they are
+    nstores: Dict[str, int] = {}
+    for n_ in ast.walk(tree):
+        if isinstance(n_, ast.Name) and isinstance(n_.ctx, (ast.Store, ast.Del)):
+            nstores[n_.id] = nstores.get(n_.id, 0) + 1
+    classes_here = {st_.name for st_ in tree.body if isinstance(st_, ast.ClassDef)}
+    for st_ in tree.body:
+        if isinstance(st_, ast.Assign) and len(st_.targets) == 1 and isinstance(st_.targets[0], ast.Name) and nstores.get(st_.targets[0].id) == 1 \
+                and isinstance(st_.value, ast.Call) and isinstance(st_.value.func, ast.Name) and st_.value.func.id in classes_here and not st_.value.keywords \
+                and st_.value.args and all(isinstance(a_, ast.Constant) or (isinstance(a_, ast.Name) and a_.id in static_names) for a_ in st_.value.args):
+            static_names.add(st_.targets[0].id)
 
     def simple_test(t: ast.expr):
         """(name, fn: constant -> bool) for tests that read one local only"""
@@ -1412,11 +1423,27 @@ def _next_search(tree: ast.Module) -> None:
     (its elements are str)."""
     counter = [0]
 
-    def is_none_test(t: ast.expr, nm: str) -> Optional[bool]:
-        """True for `nm is None`, False for `nm is not None`"""
-        if isinstance(t, ast.Compare) and len(t.ops) == 1 and isinstance(t.left, ast.Name) and t.left.id == nm and isinstance(t.comparators[0], ast.Constant) \
-                and t.comparators[0].value is None and isinstance(t.ops[0], (ast.Is, ast.IsNot)):
-            return isinstance(t.ops[0], ast.Is)
+    # private module-level sentinels: `_MISSING = object()`, bound once - an object nothing else can be
+    sentinels = set()
+    nst: Dict[str, int] = {}
+    for n_ in ast.walk(tree):
+        if isinstance(n_, ast.Name) and isinstance(n_.ctx, (ast.Store, ast.Del)):
+            nst[n_.id] = nst.get(n_.id, 0) + 1
+    for st_ in tree.body:
+        tg_ = st_.targets[0] if isinstance(st_, ast.Assign) and len(st_.targets) == 1 else (st_.target if isinstance(st_, ast.AnnAssign) else None)
+        v_ = getattr(st_, "value", None)
+        if isinstance(tg_, ast.Name) and tg_.id.startswith("_") and nst.get(tg_.id) == 1 and isinstance(v_, ast.Call) and isinstance(v_.func, ast.Name) and v_.func.id == "object" \
+                and not v_.args and not v_.keywords:
+            sentinels.add(tg_.id)
+
+    def is_none_test(t: ast.expr, nm: str, dflt: Optional[ast.expr] = None) -> Optional[bool]:
+        """True for `nm is None`, False for `nm is not None` (or, with a sentinel default D, `nm is D` / `nm is not D`)"""
+        if isinstance(t, ast.Compare) and len(t.ops) == 1 and isinstance(t.left, ast.Name) and t.left.id == nm and isinstance(t.ops[0], (ast.Is, ast.IsNot)):
+            c0 = t.comparators[0]
+            if isinstance(c0, ast.Constant) and c0.value is None and (dflt is None or (isinstance(dflt, ast.Constant) and dflt.value is None)):
+                return isinstance(t.ops[0], ast.Is)
+            if isinstance(c0, ast.Name) and isinstance(dflt, ast.Name) and c0.id == dflt.id and c0.id in sentinels:
+                return isinstance(t.ops[0], ast.Is)
         return None
 
     def do_block(fn: ast.AST, body: List[ast.stmt]) -> None:
@@ -1463,14 +1490,16 @@ def _next_search(tree: ast.Module) -> None:
             # the test that follows
             nxt = body[i] if i < len(body) else None
             took = False
-            if isinstance(nxt, ast.If) and dflt is not None and isinstance(dflt, ast.Constant) and dflt.value is None and is_none_test(nxt.test, x) is not None \
+            if isinstance(nxt, ast.If) and dflt is not None and ((isinstance(dflt, ast.Constant) and dflt.value is None) or (isinstance(dflt, ast.Name) and dflt.id in sentinels)) \
+                    and is_none_test(nxt.test, x, dflt) is not None \
                     and not any(isinstance(n, (ast.Break, ast.Continue)) for n in ast.walk(nxt)) and sum(1 for _ in ast.walk(nxt)) <= 300:
-                isnone = is_none_test(nxt.test, x)
+                isnone = is_none_test(nxt.test, x, dflt)
                 miss.extend(copy.deepcopy(nxt.body if isnone else nxt.orelse))
                 validated = any(isinstance(p, ast.Expr) and isinstance(p.value, ast.Call) and isinstance(p.value.func, ast.Name) and p.value.func.id in _ELEMENT_VALIDATORS
                                 and len(p.value.args) == 1 and ast.dump(p.value.args[0]) == ast.dump(g.iter) for p in body[:i - 1])
                 stores_between = False
-                if validated and isinstance(elt, ast.Name) and isinstance(tgt, ast.Name) and elt.id == tgt.id and not stores_between:
+                is_sentinel = isinstance(dflt, ast.Name) and dflt.id in sentinels and not any(isinstance(n_, ast.Name) and n_.id == dflt.id for n_ in ast.walk(elt))
+                if is_sentinel or (validated and isinstance(elt, ast.Name) and isinstance(tgt, ast.Name) and elt.id == tgt.id and not stores_between):
                     hit.extend(copy.deepcopy(nxt.orelse if isnone else nxt.body))
                 else:
                     hit.append(copy.deepcopy(nxt))
@@ -1578,11 +1607,46 @@ def _coalesce_temp_copies(fn: ast.AST) -> None:
                     return True
         return False
 
+    def forward_copy() -> bool:
+        """third form: `T = X` with T made up and bound once, X a plain name bound at most once (a parameter: never): T is X"""
+        if not hasattr(fn, "args"):
+            return False
+        params = {a.arg for a in ast.walk(fn.args) if isinstance(a, ast.arg)}
+        st_count: Dict[str, int] = {}
+        for x in ast.walk(fn):
+            if isinstance(x, ast.Name) and isinstance(x.ctx, (ast.Store, ast.Del)):
+                st_count[x.id] = st_count.get(x.id, 0) + 1
+        if any(isinstance(x, (ast.Global, ast.Nonlocal)) for x in ast.walk(fn)):
+            return False
+        for owner in ast.walk(fn):
+            for fld in ("body", "orelse", "finalbody"):
+                blk = getattr(owner, fld, None)
+                if not (isinstance(blk, list) and blk and isinstance(blk[0], ast.stmt)):
+                    continue
+                for j, c in enumerate(blk):
+                    if isinstance(c, ast.Assign) and len(c.targets) == 1 and isinstance(c.targets[0], ast.Name) and isinstance(c.value, ast.Name):
+                        T, X = c.targets[0].id, c.value.id
+                        if T == X or not _is_generated(T) or st_count.get(T) != 1 or T in params:
+                            continue
+                        if (X in params and st_count.get(X, 0) > 0) or (X not in params and st_count.get(X, 0) != 1):
+                            continue
+                        for x in ast.walk(fn):
+                            if isinstance(x, ast.Name) and x.id == T:
+                                x.id = X
+                        del blk[j]
+                        if not blk:
+                            blk.append(ast.copy_location(ast.Pass(), c))
+                        return True
+        return False
+
     changed = True
     rounds = 0
-    while changed and rounds < 12:
+    while changed and rounds < 24:
         changed = False
         rounds += 1
+        if forward_copy():
+            changed = True
+            continue
         if ordered_rename():
             changed = True
             continue
@@ -1988,12 +2052,175 @@ def _shift_arithmetic(tree: ast.Module) -> None:
     Sh().visit(tree)
 
 
+def _unhoist_pure_aliases(fn: ast.AST) -> None:
+    """C42: `segments = obj.segments` ... `segments["header"]`: a local bound once to a plain attribute chain and only read is that chain wherever it is
+    read - provided nothing in the function can make the two differ: no store to an attribute of that name, the root not re-bound, and no call that is
+    handed the root object (or made on it) between the binding and the last read.  (The hoisted spelling of a repeated `obj.segments[...]`.)"""
+    if not hasattr(fn, "args"):
+        return
+    params = {a.arg for a in ast.walk(fn.args) if isinstance(a, ast.arg)}
+    changed = True
+    guard = 0
+    while changed and guard < 10:
+        changed = False
+        guard += 1
+        stmts: List[ast.stmt] = []
+
+        def collect(body):
+            for st in body:
+                stmts.append(st)
+                if isinstance(st, (ast.FunctionDef, ast.AsyncFunctionDef, ast.ClassDef)):
+                    continue
+                for fld in ("body", "orelse", "finalbody"):
+                    b = getattr(st, fld, None)
+                    if isinstance(b, list) and b and isinstance(b[0], ast.stmt):
+                        collect(b)
+                if isinstance(st, ast.Try):
+                    for h in st.handlers:
+                        collect(h.body)
+        collect(fn.body)
+        stores: Dict[str, int] = {}
+        for x in ast.walk(fn):
+            if isinstance(x, ast.Name) and isinstance(x.ctx, (ast.Store, ast.Del)):
+                stores[x.id] = stores.get(x.id, 0) + 1
+        attr_stores = {x.attr for x in ast.walk(fn) if isinstance(x, ast.Attribute) and isinstance(x.ctx, (ast.Store, ast.Del))}
+        scoped = {id(x) for g in ast.walk(fn) if isinstance(g, (ast.FunctionDef, ast.AsyncFunctionDef, ast.Lambda, ast.ClassDef)) and g is not fn for x in ast.walk(g)}
+        for i, st in enumerate(stmts):
+            if not (isinstance(st, ast.Assign) and len(st.targets) == 1 and isinstance(st.targets[0], ast.Name) and isinstance(st.value, ast.Attribute)):
+                continue
+            nm = st.targets[0].id
+            chain = st.value
+            root = chain
+            attrs = []
+            while isinstance(root, ast.Attribute):
+                attrs.append(root.attr)
+                root = root.value
+            if not isinstance(root, ast.Name) or nm in params or stores.get(nm) != 1 or nm == root.id:
+                continue
+            if (root.id in params and stores.get(root.id, 0) > 0) or (root.id not in params and stores.get(root.id, 0) > 1):
+                continue
+            if set(attrs) & attr_stores or any(a.startswith("__") and a.endswith("__") for a in attrs):
+                continue
+            uses = [x for x in ast.walk(fn) if isinstance(x, ast.Name) and x.id == nm and isinstance(x.ctx, ast.Load)]
+            if not uses or any(id(u) in scoped for u in uses):
+                continue
+            # statements that hold a use, in order; all after the binding, in the binding's block or deeper
+            idx = []
+            ok = True
+            for u in uses:
+                hold = [k for k, s2 in enumerate(stmts) if any(y is u for y in ast.walk(s2))]
+                if not hold or min(hold) <= i and not any(k > i for k in hold):
+                    ok = False
+                    break
+                idx.append(max(hold))
+            if not ok:
+                continue
+            last = max(idx)
+            # between binding and last read: no call handed the root object or made on it (other than through the chain / the alias)
+            for s2 in stmts[i + 1:last + 1]:
+                heads = [s2] if not isinstance(s2, (ast.If, ast.For, ast.While, ast.Try, ast.With)) else \
+                    [getattr(s2, "test", None) or getattr(s2, "iter", None)] + [it.context_expr for it in getattr(s2, "items", [])]
+                for hnode in heads:
+                    if hnode is None:
+                        continue
+                    for c in ast.walk(hnode):
+                        if isinstance(c, ast.Call):
+                            for a in list(c.args) + [k.value for k in c.keywords]:
+                                # the root object itself handed over (a part of it - `root.x` - cannot re-bind the root's attributes)
+                                under_attr = {id(y.value) for y in ast.walk(a) if isinstance(y, ast.Attribute)}
+                                if any(isinstance(y, ast.Name) and y.id == root.id and id(y) not in under_attr for y in ast.walk(a)):
+                                    ok = False
+                            f = c.func
+                            if isinstance(f, ast.Attribute) and isinstance(f.value, ast.Name) and f.value.id == root.id:
+                                ok = False
+            if not ok:
+                continue
+
+            class S(ast.NodeTransformer):
+                def visit_Name(self, n: ast.Name):
+                    if n.id == nm and isinstance(n.ctx, ast.Load):
+                        return ast.copy_location(copy.deepcopy(chain), n)
+                    return n
+            for s2 in stmts[i + 1:]:
+                for fld, val in list(ast.iter_fields(s2)):
+                    if isinstance(val, ast.expr):
+                        setattr(s2, fld, S().visit(val))
+                    elif isinstance(val, list) and val and isinstance(val[0], ast.expr):
+                        setattr(s2, fld, [S().visit(v) for v in val])
+                    elif isinstance(val, list) and val and isinstance(val[0], ast.withitem):
+                        for it in val:
+                            it.context_expr = S().visit(it.context_expr)
+                    elif isinstance(val, list) and val and isinstance(val[0], ast.keyword):
+                        for k in val:
+                            k.value = S().visit(k.value)
+            # drop the binding
+            for owner in ast.walk(fn):
+                for fld in ("body", "orelse", "finalbody"):
+                    b = getattr(owner, fld, None)
+                    if isinstance(b, list) and any(x is st for x in b):
+                        b[:] = [x for x in b if x is not st] or [ast.copy_location(ast.Pass(), st)]
+                if isinstance(owner, ast.Try):
+                    for h in owner.handlers:
+                        if any(x is st for x in h.body):
+                            h.body[:] = [x for x in h.body if x is not st] or [ast.copy_location(ast.Pass(), st)]
+            changed = True
+            break
+
+
+def _operator_getters(tree: ast.Module) -> None:
+    """C43: a module-level name bound once to `operator.itemgetter("a", "b")` / `attrgetter("x")`, called on a plain name or attribute chain:
+    `G(d)` is `(d["a"], d["b"])` (one key: `d["a"]`), `A(o)` is `o.x`.  `itertools.chain(<display>, <display>)` is the display of both."""
+    nst: Dict[str, int] = {}
+    for n_ in ast.walk(tree):
+        if isinstance(n_, ast.Name) and isinstance(n_.ctx, (ast.Store, ast.Del)):
+            nst[n_.id] = nst.get(n_.id, 0) + 1
+    getters: Dict[str, Tuple[str, List[Any]]] = {}
+    for st in tree.body:
+        tg = st.targets[0] if isinstance(st, ast.Assign) and len(st.targets) == 1 else (st.target if isinstance(st, ast.AnnAssign) else None)
+        v = getattr(st, "value", None)
+        if isinstance(tg, ast.Name) and nst.get(tg.id) == 1 and isinstance(v, ast.Call) and not v.keywords and v.args and all(isinstance(a, ast.Constant) for a in v.args):
+            f = v.func
+            nm = f.id if isinstance(f, ast.Name) else (f.attr if isinstance(f, ast.Attribute) and isinstance(f.value, ast.Name) and f.value.id == "operator" else None)
+            if nm in ("itemgetter", "attrgetter") and (nm == "itemgetter" or all(isinstance(a.value, str) and a.value.isidentifier() for a in v.args)):
+                getters[tg.id] = (nm, [a.value for a in v.args])
+
+    def plain(e: ast.expr) -> bool:
+        while isinstance(e, ast.Attribute):
+            e = e.value
+        return isinstance(e, ast.Name)
+
+    class G(ast.NodeTransformer):
+        def visit_Call(self, n: ast.Call):
+            self.generic_visit(n)
+            f = n.func
+            if isinstance(f, ast.Name) and f.id in getters and len(n.args) == 1 and not n.keywords and plain(n.args[0]):
+                kind, keys = getters[f.id]
+                if kind == "itemgetter":
+                    parts: List[ast.expr] = [ast.Subscript(value=copy.deepcopy(n.args[0]), slice=ast.Constant(value=k), ctx=ast.Load()) for k in keys]
+                else:
+                    parts = [ast.Attribute(value=copy.deepcopy(n.args[0]), attr=k, ctx=ast.Load()) for k in keys]
+                new = parts[0] if len(parts) == 1 else ast.Tuple(elts=parts, ctx=ast.Load())
+                return ast.copy_location(new, n)
+            cn = f.id if isinstance(f, ast.Name) else (f.attr if isinstance(f, ast.Attribute) and isinstance(f.value, ast.Name) and f.value.id == "itertools" else None)
+            if cn == "chain" and n.args and not n.keywords and all(isinstance(a, (ast.List, ast.Tuple)) and not any(isinstance(e, ast.Starred) for e in a.elts) for a in n.args):
+                return ast.copy_location(ast.List(elts=[e for a in n.args for e in a.elts], ctx=ast.Load()), n)
+            return n
+    for fn in ast.walk(tree):
+        if isinstance(fn, (ast.FunctionDef, ast.AsyncFunctionDef)):
+            local = {x.id for x in ast.walk(fn) if isinstance(x, ast.Name) and isinstance(x.ctx, (ast.Store, ast.Del))} | {a.arg for a in ast.walk(fn.args) if isinstance(a, ast.arg)}
+            if local & (set(getters) | {"chain"}):
+                continue
+            G().visit(fn)
+
+
 def canonicalise(tree: ast.Module, module: str = "") -> ast.Module:
     if os.environ.get("JV_CANON_C16", "0") == "1":  # off: the reference tree itself uses `all(...)` tests that rules address (is_list_str); the any / all idiom is handled in the rules
         _any_all_to_loops(tree)
     if os.environ.get("JV_CANON_C41", "1") == "1":
         _propagate_local_const_tuples(tree)
         _shift_arithmetic(tree)
+    if os.environ.get("JV_CANON_C43", "1") == "1":
+        _operator_getters(tree)
     if os.environ.get("JV_CANON_C15", "1") == "1":
         # only tables the rule catalogue does not know (module-level names that are not in the reference list): a loop the reference tree already has stays
         from .renames import reference
@@ -2022,6 +2249,10 @@ def canonicalise(tree: ast.Module, module: str = "") -> ast.Module:
         for n in ast.walk(tree):
             if isinstance(n, (ast.FunctionDef, ast.AsyncFunctionDef)):
                 _dissolve_local_tuples(n)
+    if os.environ.get("JV_CANON_C42", "1") == "1":
+        for n in ast.walk(tree):
+            if isinstance(n, (ast.FunctionDef, ast.AsyncFunctionDef)):
+                _unhoist_pure_aliases(n)
     if os.environ.get("JV_CANON_C25", "1") == "1":
         _split_tuple_assigns(tree)
     tree = _Canon().visit(tree)
@@ -2031,6 +2262,8 @@ def canonicalise(tree: ast.Module, module: str = "") -> ast.Module:
         _thread_sentinels(tree)
     if os.environ.get("JV_CANON_C38", "1") == "1":
         _duplicate_merge_calls(tree)
+    if os.environ.get("JV_CANON_C43", "1") == "1":
+        _operator_getters(tree)
     for n in ast.walk(tree):
         if isinstance(n, (ast.FunctionDef, ast.AsyncFunctionDef)):
             if os.environ.get("JV_CANON_C36", "1") == "1":
@@ -2038,6 +2271,8 @@ def canonicalise(tree: ast.Module, module: str = "") -> ast.Module:
             _inline_return_temps(n)
             if os.environ.get("JV_CANON_C5", "1") == "1":
                 _inline_single_use_temps(n)
+    if os.environ.get("JV_CANON_C43", "1") == "1":
+        _operator_getters(tree)  # again: single-use temporaries were written out meanwhile
     _strip_bool_in_tests(tree)
     ast.fix_missing_locations(tree)
     return tree
